@@ -153,7 +153,8 @@ def check(run: Run) -> None:
 
     # ---------------- R4
     pm = m.find_func("process_method_call", in_module=mod)
-    fp = ctx.analysis(pm)
+    ctx_pm = TermCtx(m, max_depth=1, opaque={"as_literal", "_find_keyword", "resolve_type_vars", "get_type_hints", "_fill_in_default_arguments", "type_follow_in_callbacks", "process_method_callbacks", "get_method_and_class"})
+    fp = ctx_pm.analysis(pm)
     sites = [c for c in calls_in(pm) if isinstance(c.func, ast.Name) and c.func.id == "_fill_in_default_arguments"]
     run.check(len(sites) == 1, "C07.R4", pm, pm.node, "one filling site for method calls", f"{len(sites)} _fill_in_default_arguments sites in process_method_call")
     for c in sites:
@@ -184,6 +185,30 @@ def check(run: Run) -> None:
         run.check(exempt, "C07.R4", pm, stmt_of(c), "methods defined on ObjectStream are not given defaults", "calls resolved to the library's own stream operators (methods defined on ObjectStream) are normalised like user methods: their internal known_types={} parameter is materialised in the emitted query", "skip filling when base_obj.method_class is ObjectStream")
         a0 = strip_sites(fp.term_of(c.args[0]))
         run.check(a0[0] == "attr" and a0[2] == "method", "C07.R2", pm, stmt_of(c), "the signature used is the resolved method's", f"filling uses {show(a0)[:60]} as the signature")
+    # the normalised node (not the call as written) is what type following / callbacks continue with
+    filled = None
+    for c in sites:
+        st_ = stmt_of(c)
+        if isinstance(st_, ast.Assign) and isinstance(st_.targets[0], ast.Tuple) and isinstance(st_.targets[0].elts[0], ast.Name):
+            fname = st_.targets[0].elts[0].id
+            loads = [n for n in own_nodes(pm) if isinstance(n, ast.Name) and n.id == fname and isinstance(n.ctx, ast.Load) and fp.cfg.has_node(n)]
+            cand = {strip_sites(fp.term_of(n)) for n in loads}
+            if len(cand) == 1:
+                filled = cand.pop()
+    users = [c for c in calls_in(pm) if isinstance(c.func, ast.Attribute) and c.func.attr == "type_follow_in_callbacks"]
+    run.check(len(users) == 1, "C07.R2", pm, pm.node, "one continuation of type following with the normalised call", f"{len(users)} type_follow_in_callbacks sites")
+    for c in users:
+        a2 = strip_sites(fp.term_of(c.args[2])) if len(c.args) > 2 else None
+        run.check(filled is not None and a2 == filled, "C07.R2", pm, stmt_of(c), "collection operators are followed on the normalised call", f"type following of collection-class methods continues with {show(a2)[:60] if a2 else '?'} instead of the normalised call returned by _fill_in_default_arguments: an operator of a registered collection class that takes defaulted parameters next to its lambda is emitted without its defaults / with its keywords", "type_follow_in_callbacks(m_name, base_obj, default_args_node)")
+    infos = [c for c in calls_in(pm) if isinstance(c.func, ast.Name) and c.func.id == "_MethodTypeReturnInfo"]
+    for c in infos:
+        kw = {k.arg: k.value for k in c.keywords}
+        if "node" in kw:
+            nt = strip_sites(fp.term_of(kw["node"]))
+            fx = Facts(fp, c)
+            raw_ok = nt == ("param", pm.pos_params[1]) and any(isinstance(a, ast.Compare) and "len(return_results)" in ast.unparse(a) and pol for a, pol in fx.atoms)
+            run.check(nt == filled or raw_ok, "C07.R2", pm, stmt_of(c), "candidate results carry the normalised call (the raw call only when no definition was found)", f"a candidate result carries {show(nt)[:60]} instead of the normalised call")
+
     pf = m.find_func("process_function_call", in_module=mod)
     fsites = [c for c in calls_in(pf) if isinstance(c.func, ast.Name) and c.func.id == "_fill_in_default_arguments"]
     run.check(len(fsites) == 1 and ast.unparse(fsites[0].args[0]).endswith(".function"), "C07.R2", pf, pf.node, "registered functions are normalised against their declared signature", "process_function_call no longer normalises against func_info.function")
